@@ -88,7 +88,7 @@ func c01Universe(variant int) pongo2.Context {
 		"fvalnil": func() *pongo2.Value { return nil }, "ferrtype": func() (int, string) { return 1, "notanerror" },
 		"ch": make(chan int, 1), "cplx": complex(1, 2), "err": errors.New("<err>"), "pp": &pone, "u": uintptr(7),
 		// maps with unusual key types, and values that are almost (but not) keys of them
-		"arrmap": map[[2]int]string{{1, 2}: "pair"}, "i64map": map[int64]string{1: "one"}, "nsmap": map[ZStrStr]int{"k": 1}, "ptrmap": map[*int]int{pone: 1},
+		"arrmap": map[[2]int]string{{1, 2}: "pair"}, "i64map": map[int64]string{1: "one"}, "nsmap": map[ZStrStr]int{"k": 1}, "ptrmap": map[*int]int{pone: 1}, "pi": pone, "nilpi": (*int)(nil), "psmap": map[*c01S]string{}, "errmap": map[error]int{}, "anymap": map[any]int{"k": 1, 2: 2},
 		"ifmap": map[fmt.Stringer]int{ZIntStr(1): 1}, "sl1": []int{7}, "sl2": []int{1, 2}, "arr2": [2]int{1, 2}, "i64": int64(1), "ns": ZStrStr("k"),
 		// a context key that clashes with a macro exported by a helper file
 		"imp_box": "clash",
@@ -118,7 +118,8 @@ var c01Lits = []string{"0", "1", "2", "5", "1.5", `"a"`, `""`, `"1:2"`, `"-1:"`,
 	`i|stringformat:"%2000000000d"`, `str|truncatechars:-2000000000`, `long|wordwrap:-1`, `long|wordwrap:0`, `sl|slice:"-2000000000:2000000000"`, `str|get_digit:2000000000`, `long|truncatewords_html:2000000000`,
 	`i|add:i64max`, `i64min|add:i64min`, `2000000000 ^ 2000000000`, `str|linenumbers|linenumbers|linenumbers`, `i|divisibleby:0`, `u64max|get_digit:1`, `i64min|get_digit:1`, `inf|floatformat:3`, `nan|floatformat`, `inf|integer`, `nan|integer`,
 	// ready-made operand pairs of one kind (two random names rarely are): time comparisons, membership in structs and maps
-	"tm < tm", "tm >= tm", "tm == tm", "tm != tm", "tm > tm", "tm <= tm", `"Name" in s`, `"priv" in s`, "1 in im", `"k" in sm`, "nili in sm", "f in fm", "t in bm", "u8 in um", "s in sl", "nili in sl"}
+	"tm < tm", "tm >= tm", "tm == tm", "tm != tm", "tm > tm", "tm <= tm", `"Name" in s`, `"priv" in s`, "1 in im", `"k" in sm`, "nili in sm", "f in fm", "t in bm", "u8 in um", "s in sl", "nili in sl", "pi in ptrmap", "nilpi in ptrmap", "sp in psmap", "nilp in psmap", "err in errmap", "nilerr in errmap", "sl in anymap", "mm in anymap", "[1, 2] in anymap", "anymap[sl]", "anymap[[1, 2]]", "anymap[mm]", "anymap[fn]",
+	"7 % 0.5", "7 % f32", "i % tiny", "2 ^ (-1)", "2 ^ neg", "0 ^ neg", "neg ^ 0.5", "i64min / neg", "i64min % neg"}
 
 // ---- case: a program (generated or assembled), optionally mutated at token level ---------
 
